@@ -82,6 +82,8 @@ def verify_function(interp, key, contract, max_paths=4000):
     interp.spec_alias = {}
     interp._renamed = {}
     cases = contract.get('cases') or [{}]
+    from . import solve as _solve
+    _solve.USE_CONE[0] = bool(contract.get('feas_cone'))
     for ci, case in enumerate(cases):
         restarts = 0
         while True:
@@ -92,6 +94,8 @@ def verify_function(interp, key, contract, max_paths=4000):
             while scripts:
                 script = scripts.pop()
                 interp.obligations = []
+                if _os.environ.get('PYVC_TRACE'):
+                    print('[trace] %.1fs paths=%d pending=%d script=%s' % (time.time() - t0, npaths, len(scripts), script), flush=True)
                 try:
                     run_path(interp, fi, contract, case, ci, script)
                     obs.extend(interp.obligations)
@@ -329,9 +333,18 @@ def apply_contract(interp, fi, c, args, kwargs, fr, node):
     for guard, vkey in c.get('dispatch', []):
         gfr = Frame(fi, dict(env), spec=True)
         gv = interp.eval_spec(guard, gfr)
-        if not is_symbolic(gv) and gv:
+        if is_symbolic(gv):
+            # a guard that depends on symbolic state: case split (both contracts describe the same function on disjoint inputs)
+            gz = ops.z3bool(gv)
+            ft, ff = interp.feasible(gz), interp.feasible(z3.Not(gz))
+            take = (interp.choose(2) == 0) if (ft and ff) else ft
+            interp.assume(gz if take else z3.Not(gz))
+            gv = take
+        if gv:
             c = interp.contracts[vkey]
             interp.contract_used.add(vkey)
+            if c.get('trusted'):
+                interp.trusted_used.add('assumed (unverified) contract of ' + vkey)
             break
     selfobj = env.get('self') if fi.cls is not None else None
     line = getattr(node, 'lineno', interp.cur_line)
@@ -428,7 +441,8 @@ def apply_contract(interp, fi, c, args, kwargs, fr, node):
                     continue
                 if isinstance(l, ast.Attribute) and isinstance(l.value, ast.Name) and l.value.id == 'self' and \
                         isinstance(selfobj, Obj) and (is_ctor or l.attr in c.get('modifies', [])) and \
-                        not _mentions(nd.comparators[0], 'self', l.attr):
+                        not _mentions(nd.comparators[0], 'self', l.attr) and \
+                        (have_result or not any(isinstance(x, ast.Name) and x.id == 'result' for x in ast.walk(nd.comparators[0]))):
                     selfobj.fields[l.attr] = eval_rhs(interp, nd.comparators[0], cfr)
                     continue
             pending.append(e)
@@ -441,6 +455,11 @@ def apply_contract(interp, fi, c, args, kwargs, fr, node):
         elif not have_result:
             cfr.env['result'] = None
         for e in pending:
+            v = interp.eval_spec(e, cfr)
+            interp.assume(ops.z3bool(v) if is_symbolic(v) else bool(v))
+        # clauses a caller may rely on although the function's own verification does NOT prove them: listed as assumptions
+        for e in c.get('assumed_ensures', []):
+            interp.trusted_used.add('ASSUMED at call sites of %s (not proved for the function): %s' % (fi.key, e))
             v = interp.eval_spec(e, cfr)
             interp.assume(ops.z3bool(v) if is_symbolic(v) else bool(v))
         return result
